@@ -49,6 +49,13 @@ def is_enzyme(sub) -> bool:
     return sub._type == ENZYME
 
 
+def specific_activity_of(sub) -> float:
+    """U per g: as declared (the harness notes its own reading of the declaration string on enzymes it creates), else as
+    stored by the library."""
+    sa = getattr(sub, '__dict__', {}).get('_pv_sa')
+    return sa if sa is not None else sub.specific_activity
+
+
 def density_of(sub) -> float:
     """Density used by the reference: a liquid's own; for solids and enzymes that carry the library's default, the
     default *as configured in the file* (a substance built with an explicit other density keeps it)."""
@@ -77,7 +84,7 @@ def per(sub, base: str) -> float:
         if base == 'mol':
             return 0.0
         if base == 'g':
-            return 1.0 / sub.specific_activity
+            return 1.0 / specific_activity_of(sub)
         if base == 'L':
             d = density_of(sub)
             return 0.0 if math.isinf(d) else 1.0 / d / 1000.0
